@@ -75,6 +75,20 @@ static inline int ca_hb_access(unsigned prior, int ev) {
 #define CA_HB_FENCE(mo)    ((void) 0)
 #endif
 
+#ifdef CA_RMW_GHOST
+/* record of the redirected read-modify-write operations (C01 loop-abstraction query): number of successful ones, the old
+ * value the LAST successful one observed, the value it stored, and whether the last attempt (CAS) succeeded at all */
+extern unsigned ca_rmw_nsucc; extern int ca_rmw_last_ok;
+extern long long ca_rmw_succ_old, ca_rmw_succ_new;
+#ifdef CA_IMPL
+unsigned ca_rmw_nsucc; int ca_rmw_last_ok;
+long long ca_rmw_succ_old, ca_rmw_succ_new;
+#endif
+#define CA_RMW_REC(ok, o, n) (ca_rmw_last_ok = (ok), (ok) ? (ca_rmw_nsucc++, ca_rmw_succ_old = (long long) (o), ca_rmw_succ_new = (long long) (n), 0) : 0)
+#else
+#define CA_RMW_REC(ok, o, n) ((void) 0)
+#endif
+
 #define CA_VAL_T(p) __typeof__((*(p)) + 0)
 #define CA_CAS(p, e, d, smo, fmo) __extension__({ \
   __typeof__(p) ca_p_ = (p); __typeof__(e) ca_e_ = (e); CA_VAL_T(ca_p_) ca_o_, ca_d_ = (CA_VAL_T(ca_p_)) (d); \
@@ -82,6 +96,7 @@ static inline int ca_hb_access(unsigned prior, int ev) {
   CA_CHECK_WORD(ca_p_); CA_FULL_FENCE(); __CPROVER_atomic_begin(); \
   ca_o_ = *ca_p_; ca_ok_ = (ca_o_ == *ca_e_); \
   if (ca_ok_) { *ca_p_ = ca_d_; CA_HB_RMW(ca_p_, ca_smo_); } else { *ca_e_ = ca_o_; CA_HB_LOAD(ca_p_, ca_fmo_); } \
+  CA_RMW_REC(ca_ok_, ca_o_, ca_d_); \
   __CPROVER_atomic_end(); CA_FULL_FENCE(); ca_ok_; })
 #define CA_STORE(p, v, mo) __extension__({ \
   __typeof__(p) ca_p_ = (p); CA_VAL_T(ca_p_) ca_v_ = (CA_VAL_T(ca_p_)) (v); int ca_mo_ = (mo); \
@@ -107,7 +122,7 @@ static inline int ca_hb_access(unsigned prior, int ev) {
   CA_CAS(p, &ca_exp_, n, __ATOMIC_SEQ_CST, __ATOMIC_SEQ_CST); })
 #define CA_XCHG(p, v, mo) __extension__({ \
   __typeof__(p) ca_p_ = (p); CA_VAL_T(ca_p_) ca_o_, ca_v_ = (CA_VAL_T(ca_p_)) (v); int ca_mo_ = (mo); \
-  CA_CHECK_WORD(ca_p_); CA_FULL_FENCE(); __CPROVER_atomic_begin(); ca_o_ = *ca_p_; *ca_p_ = ca_v_; CA_HB_RMW(ca_p_, ca_mo_); \
+  CA_CHECK_WORD(ca_p_); CA_FULL_FENCE(); __CPROVER_atomic_begin(); ca_o_ = *ca_p_; *ca_p_ = ca_v_; CA_HB_RMW(ca_p_, ca_mo_); CA_RMW_REC(1, ca_o_, ca_v_); \
   __CPROVER_atomic_end(); CA_FULL_FENCE(); ca_o_; })
 #define __atomic_exchange_n(p, v, mo)  CA_XCHG(p, v, mo)
 #define __atomic_exchange_4(p, v, mo)  CA_XCHG(p, v, mo)
